@@ -397,6 +397,11 @@ func propC19(w *World, r *Report, tier string) {
 		// read-only use of a shared decoded message
 		isGetter := rel == "nasType" && strings.HasPrefix(f.Name(), "Get") && f.Signature.Recv() != nil
 		isEnc := rel == "nasMessage" && strings.HasPrefix(f.Name(), "Encode") && f.Signature.Recv() != nil
+		// serialisers of the other packages: encoding a shared message only reads it
+		if f.Signature.Recv() != nil && (rel == "nasType" || rel == "nasConvert" || rel == "uePolicyContainer") &&
+			(f.Name() == "MarshalBinary" || f.Name() == "Marshal" || strings.HasPrefix(f.Name(), "Encode")) {
+			isEnc = true
+		}
 		if isGetter || isEnc {
 			nGet++
 			r.Site("eff.getters-pure")
